@@ -61,4 +61,6 @@ NVELimit(r)  == r.inf => r.a9 = One /\ r.gsum9 <= 5
 Isotropic(r) == r.iso9 <= 2
 PaddingAtRest(r) == r.pad9 = 0
 TwoDraws(r)  == r.draws = (IF r.level = "step" THEN 2 ELSE 1)   \* "operator": one O operator measured on its own
+\* one MD step makes at least the two thermostat draws, and no two normal draws of a step are the same numbers (white noise)
+StepNoise(r) == r.stepdraws >= 2 /\ r.distinct      \* (surface hopping draws one more variate outside the thermostat)
 =============================================================================
